@@ -5,6 +5,7 @@
 use serde_json::json;
 
 use crate::bus;
+use crate::core::pool::observe;
 use crate::core::prng::{Rng, mix};
 use crate::core::report::{Ctx, RunOut, Spec};
 use crate::gprog::{self, GenCfg, Program};
@@ -238,6 +239,198 @@ pub fn one_run<U: CircuitUni>(ctx: &Ctx, idx: u64, c09: bool, out: &mut RunOut) 
     }
 }
 
+/// Honest arm for circuits with non-primitive tables: a Merkle-opening verification circuit (arity 2
+/// over the width-16 permutation, arity 4 over the width-32 one) of a seeded batch shape, run
+/// honestly, proven and verified. Satisfying inputs by construction (the native MMCS accepts the
+/// opening), so any failing stage is a C10 violation and an unbalanced bus a C09 one.
+pub fn npo_run(ctx: &Ctx, idx: u64, c09: bool, out: &mut RunOut) {
+    use crate::props::c08;
+    let mut rng = Rng::new(ctx.seed, "C10-npo", idx);
+    let uni = ["U-KB4", "U-BB4", "U-KB4-A4"][(idx % 3) as usize];
+    let shape = c08::draw_shape(&mut rng, uni, ctx.tier);
+    let max_h = shape.dims.iter().map(|d| d.0).max().unwrap();
+    let index = rng.usize_below(max_h);
+    let hs = mix(mix(ctx.seed, idx), 0x6e70);
+    foldhash::sim::set_seed(hs);
+    let staged: Result<(), (String, String)> = (|| {
+        macro_rules! go {
+            ($U:ty, $build:expr, $w32:expr) => {{
+                let (circuit, traces) = match observe(|| $build) {
+                    Ok(Ok(x)) => x,
+                    Ok(Err(e)) if e.contains("sibling slots for") => return Err(("skip".to_string(), e)),
+                    Ok(Err(e)) => return Err(("build_or_run".to_string(), e)),
+                    Err(p) => return Err(("build_or_run_panic".to_string(), p)),
+                };
+                let cfg = ProverCfg { npo: BuilderOpts { poseidon: true, recompose: true }, poseidon_w32: $w32, alu_lanes: *[1usize, 2, 4].get((idx / 3 % 3) as usize).unwrap_or(&1), ..ProverCfg::default() };
+                let (keys, info) = pipe::keygen::<$U>(&circuit, &cfg).map_err(|f| (f.stage.name().to_string(), f.msg))?;
+                let proof = pipe::prove::<$U>(&keys, &traces, &cfg, None).map_err(|f| (f.stage.name().to_string(), f.msg))?;
+                pipe::verify::<$U>(&proof, &cfg, &info.commitment).map_err(|f| (f.stage.name().to_string(), f.msg))
+            }};
+        }
+        match uni {
+            "U-BB4" => go!(crate::uni::Bb4, c08::bb4::build_and_run(&shape, index), false),
+            "U-KB4-A4" => go!(crate::uni::Kb4, c08::kb4a4::build_and_run(&shape, index), true),
+            _ => go!(crate::uni::Kb4, c08::kb4::build_and_run(&shape, index), false),
+        }
+    })();
+    out.evals += 1;
+    out.count("npo_merkle_circuits");
+    match staged {
+        Ok(()) => out.count("npo_proved_and_verified"),
+        Err((stage, _)) if stage == "skip" => out.count("npo_arity4_known_shape_skipped"),
+        Err((stage, msg)) => {
+            let class = err_kind(&msg);
+            let key = if c09 { format!("npo_bus_unbalanced:{uni}:{class}") } else { format!("npo_honest_failed:{stage}:{uni}:{class}") };
+            let bus = msg.contains("Lookup") || msg.contains("TerminalSum");
+            if !c09 || bus {
+                out.violate(
+                    key,
+                    format!("Merkle-opening circuit ({uni}, dims {:?}, cap {}, index {index}): native MMCS accepts the opening, the circuit ran, but the pipeline failed at {stage}: {}", shape.dims, shape.cap_height, msg.chars().take(240).collect::<String>()),
+                    json!({"npo": true, "shape": shape, "index": index, "hash_seed": hs, "idx": idx}),
+                );
+            }
+        }
+    }
+}
+
+
+/// Raw permutation-call family: a Merkle path of `depth` width-16 Poseidon2 rows built directly
+/// with `add_poseidon2_perm` (the public low-level API), optionally preceded by `pre` independent
+/// sponge rows, exposing the path's `mmcs_index_sum` on its last row (the index is a public input).
+macro_rules! raw_merkle {
+    ($fname:ident, $bname:ident, $params:ident, $p2params:ty, $p2cfg:expr, $defperm:path, $uni:ty) => {
+        #[allow(clippy::type_complexity)]
+        pub fn $bname(depth: usize, pre: usize, expose_index: bool, seed: u64) -> Result<(p3_circuit::Circuit<p3_test_utils::$params::Challenge>, p3_circuit::tables::Traces<p3_test_utils::$params::Challenge>), (String, String)> {
+            use p3_circuit::ops::{NpoPrivateData, Poseidon2PermCall, Poseidon2PermPrivateData, generate_poseidon2_trace, generate_recompose_trace};
+            use p3_field::{BasedVectorSpace, PrimeCharacteristicRing};
+            use p3_symmetric::Permutation;
+            use p3_test_utils::$params::{Challenge, F};
+            type EF = Challenge;
+            const LIMB: usize = 4;
+            let mut rng = Rng::new(seed, "raw-merkle", depth as u64);
+            let perm = $defperm();
+            let mut limb = |rng: &mut Rng| -> EF { EF::from_basis_coefficients_fn(|_| F::from_u64(rng.below(<F as p3_field::PrimeField64>::ORDER_U64))) };
+            let flat = |l: &[EF]| -> Vec<F> { l.iter().flat_map(|x| x.as_basis_coefficients_slice().to_vec()).collect() };
+            let leaf = [limb(&mut rng), limb(&mut rng)];
+            let siblings: Vec<[EF; 2]> = (0..depth).map(|_| [limb(&mut rng), limb(&mut rng)]).collect();
+            let bits: Vec<bool> = (0..depth).map(|r| r > 0 && rng.chance(1, 2)).collect();
+            // native root
+            let mut digest: Vec<F> = flat(&leaf);
+            for (r, &bit) in bits.iter().enumerate() {
+                let sib = flat(&siblings[r]);
+                let mut state = [F::ZERO; 16];
+                if r > 0 && bit {
+                    state[..2 * LIMB].copy_from_slice(&sib);
+                    state[2 * LIMB..].copy_from_slice(&digest);
+                } else {
+                    state[..2 * LIMB].copy_from_slice(&digest);
+                    state[2 * LIMB..].copy_from_slice(&sib);
+                }
+                digest = perm.permute(state)[..2 * LIMB].to_vec();
+            }
+            let root = [EF::from_basis_coefficients_slice(&digest[..LIMB]).unwrap(), EF::from_basis_coefficients_slice(&digest[LIMB..]).unwrap()];
+            let index: u64 = bits.iter().enumerate().map(|(i, &b)| (b as u64) << (depth - 1 - i)).sum();
+            let built = observe(|| -> Result<_, String> {
+                let mut b = p3_circuit::CircuitBuilder::<EF>::new();
+                b.enable_poseidon2_perm::<$p2params, _>(generate_poseidon2_trace::<EF, $p2params>, perm.clone());
+                b.enable_recompose::<F>(generate_recompose_trace::<F, EF>);
+                let out0 = b.public_input();
+                let out1 = b.public_input();
+                let index_expr = b.public_input();
+                let mut pubs = vec![root[0], root[1], EF::from(F::from_u64(index))];
+                // independent sponge rows first: they only move the Merkle rows inside the table
+                for k in 0..pre {
+                    let x = b.public_input();
+                    pubs.push(EF::from(F::from_u64(7 + k as u64)));
+                    let zero = b.alloc_const(EF::ZERO, "z");
+                    let (_id, outs) = b
+                        .add_poseidon2_perm(&Poseidon2PermCall { config: $p2cfg, new_start: true, merkle_path: false, mmcs_bit: None, mmcs_bit2: None, inputs: vec![Some(x), Some(zero), Some(zero), Some(zero)], out_ctl: vec![true, false], return_all_outputs: false, mmcs_index_sum: None })
+                        .map_err(|e| format!("{e:?}"))?;
+                    let y = b.public_input();
+                    b.connect(outs[0].unwrap(), y);
+                    let mut st = [F::ZERO; 16];
+                    st[0] = F::from_u64(7 + k as u64);
+                    let o = perm.permute(st);
+                    pubs.push(EF::from_basis_coefficients_slice(&o[..LIMB]).unwrap());
+                }
+                let mut private = Vec::new();
+                let mut last = Vec::new();
+                for (r, &bit) in bits.iter().enumerate() {
+                    let bit_expr = b.alloc_const(EF::from(F::from_bool(bit)), "mmcs_bit");
+                    let inputs = if r == 0 {
+                        vec![Some(b.alloc_const(leaf[0], "l0")), Some(b.alloc_const(leaf[1], "l1")), Some(b.alloc_const(siblings[0][0], "s0")), Some(b.alloc_const(siblings[0][1], "s1"))]
+                    } else {
+                        vec![None; 4]
+                    };
+                    let is_last = r + 1 == depth;
+                    let (op_id, outs) = b
+                        .add_poseidon2_perm(&Poseidon2PermCall { config: $p2cfg, new_start: r == 0, merkle_path: true, mmcs_bit: Some(bit_expr), mmcs_bit2: None, inputs, out_ctl: vec![is_last, is_last], return_all_outputs: false, mmcs_index_sum: (is_last && expose_index).then_some(index_expr) })
+                        .map_err(|e| format!("{e:?}"))?;
+                    if r > 0 {
+                        private.push((op_id, siblings[r]));
+                    }
+                    last = outs;
+                }
+                b.connect(last[0].unwrap(), out0);
+                b.connect(last[1].unwrap(), out1);
+                let circuit = b.build().map_err(|e| format!("{e:?}"))?;
+                let traces = {
+                    let mut r = circuit.runner();
+                    r.set_public_inputs(&pubs).map_err(|e| format!("{e:?}"))?;
+                    for (op_id, sib) in &private {
+                        r.set_private_data(*op_id, NpoPrivateData::new(Poseidon2PermPrivateData { sibling: sib.to_vec() })).map_err(|e| format!("{e:?}"))?;
+                    }
+                    r.run().map_err(|e| format!("{e:?}"))?
+                };
+                Ok((circuit, traces))
+            });
+            match built {
+                Ok(Ok(x)) => Ok(x),
+                Ok(Err(e)) => Err(("build_or_run".to_string(), e)),
+                Err(p) => Err(("build_or_run_panic".to_string(), p)),
+            }
+        }
+        fn $fname(depth: usize, pre: usize, expose_index: bool, seed: u64, cfg: &ProverCfg) -> Result<(), (String, String)> {
+            let (circuit, traces) = $bname(depth, pre, expose_index, seed)?;
+            let (keys, info) = pipe::keygen::<$uni>(&circuit, cfg).map_err(|f| (f.stage.name().to_string(), f.msg))?;
+            let proof = pipe::prove::<$uni>(&keys, &traces, cfg, None).map_err(|f| (f.stage.name().to_string(), f.msg))?;
+            pipe::verify::<$uni>(&proof, cfg, &info.commitment).map_err(|f| (f.stage.name().to_string(), f.msg))
+        }
+    };
+}
+raw_merkle!(raw_merkle_kb4, raw_merkle_build_kb4, koala_bear_params, p3_poseidon2_circuit_air::KoalaBearD4Width16, p3_circuit::ops::Poseidon2Config::KOALA_BEAR_D4_W16, p3_koala_bear::default_koalabear_poseidon2_16, crate::uni::Kb4);
+raw_merkle!(raw_merkle_bb4, raw_merkle_build_bb4, baby_bear_params, p3_poseidon2_circuit_air::BabyBearD4Width16, p3_circuit::ops::Poseidon2Config::BABY_BEAR_D4_W16, p3_baby_bear::default_babybear_poseidon2_16, crate::uni::Bb4);
+
+/// Honest arm over the raw permutation-call family.
+pub fn raw_run(ctx: &Ctx, idx: u64, c09: bool, out: &mut RunOut) {
+    let mut rng = Rng::new(ctx.seed, "C10-raw", idx);
+    let depth = rng.range(1, 9);
+    let pre = rng.range(0, 3);
+    let expose = rng.chance(3, 4);
+    let seed = mix(mix(ctx.seed, idx), 0x7261);
+    foldhash::sim::set_seed(seed);
+    let cfg = ProverCfg { npo: BuilderOpts { poseidon: true, recompose: true }, ..ProverCfg::default() };
+    let kb = idx % 2 == 0;
+    let r = if kb { raw_merkle_kb4(depth, pre, expose, seed, &cfg) } else { raw_merkle_bb4(depth, pre, expose, seed, &cfg) };
+    out.evals += 1;
+    out.count("raw_merkle_paths");
+    out.count(&format!("raw_rows_{}", if (depth + pre).is_power_of_two() { "pow2" } else { "other" }));
+    match r {
+        Ok(()) => out.count("raw_proved_and_verified"),
+        Err((stage, msg)) => {
+            let class = err_kind(&msg);
+            let bus = msg.contains("Lookup") || msg.contains("TerminalSum");
+            if !c09 || bus {
+                out.violate(
+                    if c09 { format!("raw_perm_bus_unbalanced:{class}") } else { format!("raw_perm_honest_failed:{stage}:{class}") },
+                    format!("Merkle path of {depth} permutation rows after {pre} sponge rows (index exposed: {expose}, {}): satisfying by construction, but the pipeline failed at {stage}: {}", if kb { "U-KB4" } else { "U-BB4" }, msg.chars().take(240).collect::<String>()),
+                    json!({"raw": true, "idx": idx, "depth": depth, "pre": pre, "expose_index": expose}),
+                );
+            }
+        }
+    }
+}
+
 pub fn replay_one<U: CircuitUni>(ctx: &Ctx, body: &serde_json::Value, c09: bool) -> i32 {
     let d = &body["detail"];
     let p: Program = match serde_json::from_value(d["program"].clone()) {
@@ -277,12 +470,37 @@ pub fn main(ctx: &Ctx, c09: bool) -> i32 {
                 return 2;
             }
         };
+        if body["detail"]["npo"].as_bool() == Some(true) || body["detail"]["raw"].as_bool() == Some(true) {
+            let mut tmp = RunOut::default();
+            let mut c2 = ctx.clone();
+            c2.seed = body["seed"].as_u64().unwrap_or(ctx.seed);
+            c2.tier = if body["tier"].as_str() == Some("thorough") { crate::core::report::Tier::Thorough } else { crate::core::report::Tier::Quick };
+            if body["detail"]["raw"].as_bool() == Some(true) {
+                raw_run(&c2, body["detail"]["idx"].as_u64().unwrap_or(0), c09, &mut tmp);
+            } else {
+                npo_run(&c2, body["detail"]["idx"].as_u64().unwrap_or(0), c09, &mut tmp);
+            }
+            let key = body["key"].as_str().unwrap_or("");
+            return if tmp.violations.iter().any(|v| v.key == key) {
+                println!("VIOLATION property={} replay={}", ctx.prop, ctx.replay.as_ref().unwrap().display());
+                1
+            } else {
+                println!("replay did not reproduce key {key}");
+                0
+            };
+        }
         return crate::with_uni!(body["detail"]["universe"].as_str().unwrap_or(""), U, replay_one::<U>(ctx, &body, c09));
     }
     let runs: u64 = ctx.tier.pick(2000, 40000);
     let res = crate::core::pool::run_jobs(runs, |idx| {
         let mut out = RunOut::default();
         crate::with_uni!(crate::uni::uni_of(idx), U, one_run::<U>(ctx, idx, c09, &mut out));
+        if idx % 8 == 0 {
+            npo_run(ctx, idx, c09, &mut out);
+        }
+        if idx % 8 == 4 {
+            raw_run(ctx, idx, c09, &mut out);
+        }
         let mut d = crate::core::prng::Digest::new();
         d.u64(out.evals);
         for (k, v) in &out.counters {
